@@ -61,13 +61,22 @@ def gen_case(rng, pid, tier):
     buckets = []
     racks = []
     nid = [ROOT]
+    import random as _random0
+    # (side stream) a row of racks: a bucket of level `rack` that groups buckets of level `rack` - two nodes of one
+    # level name on a server's ancestor chain, each with its own counter and the same declared limit
+    rows = _random0.Random(repr(rng.getstate()[1][:4]) + 'rows').random() < (0.3 if pid == 'C04' else 0.15)
     for _p in range(rng.randint(1, 2)):
         nid[0] += 1
         pod = nid[0]
         buckets.append([pod, ROOT, LEVELS['pod']])
+        above = pod
+        if rows:
+            nid[0] += 1
+            above = nid[0]
+            buckets.append([above, pod, LEVELS['rack']])
         for _r in range(rng.randint(1, 2)):
             nid[0] += 1
-            buckets.append([nid[0], pod, LEVELS['rack']])
+            buckets.append([nid[0], above, LEVELS['rack']])
             racks.append(nid[0])
     labels = [0] if rng.random() < 0.55 else [0, 1]
     servers = []
